@@ -2,6 +2,7 @@ package main
 
 import (
 	"fmt"
+	"os"
 	"go/token"
 	"go/types"
 )
@@ -34,6 +35,10 @@ func init() {
 		"vsymstr":      primSymStr,
 		"vscannerSplit": primScannerSplit,
 		"vsolver":       primSolver,
+		"vprint": func(e *Exec, a []Value) Value {
+			fmt.Fprintf(os.Stderr, "VPRINT %s = %s\n", a[0].(Str).Conc(), e.describe(a[1].(Iface).V))
+			return nil
+		},
 		"vdeepequal":    primDeepEqual,
 	}
 }
